@@ -207,6 +207,16 @@ def step (st : St) (toks : List String) : St × String :=
   | "sr" :: prim :: rest =>
     let (v, r) := sreadTok prim (rest.headD "0") st.sbuf
     ({ st with sbuf := r }, v ++ " rem=" ++ toString r.length)
+  | "holdsink" :: pvs =>      -- held Bytes()/ToArray results re-checked after later encodings: evaluated on the implementation
+    let rec ok : List String → Option Nat
+      | [] => some 0
+      | [_] => none
+      | p :: v :: rest => match encTok p v, ok rest with
+        | some _, some n => some (n + 1)
+        | _, _ => none
+    match ok pvs with
+    | some n => (st, "ok k=" ++ toString n)
+    | none => (st, "bad-op")
   | "sbig" :: flds =>
     -- several large var-bytes fields written and read back-to-back with the streaming codec (values compared at the end)
     let parsed := flds.filterMap fun t =>
